@@ -174,10 +174,13 @@ package datastore
 //@   ensures forall v dvid.VersionID :: has(kvv, v) == old(has(kvv, v))
 
 //@ func VersionedCtx.VersionedKeyValue
-//@   prop C01 C05
+//@   prop C01 C05 C19
 //@   requires vctx != nil && vctx.DataContext != nil
 //@   requires forall j int :: 0 <= j && j < len(values) ==> values[j] != nil && len(values[j].K) >= 1
 //@   modifies nothing
+//@   invariant loop 1: versionMap != nil && fresh(versionMap)
+//@   invariant loop 1: forall j int :: 0 <= j && j <= rangeindex ==> has(versionMap, dvid.VersionID(be32(values[j].K, len(values[j].K) - 9)))
+//@   assert at "kv, _, err := versionMap.FindMatch(vctx.VersionID())": forall j int :: 0 <= j && j < len(values) ==> has(versionMap, dvid.VersionID(be32(values[j].K, len(values[j].K) - 9)))
 //@   ghost resolved *storage.KeyValue = nil
 //@   ghost viaResolver bool = false
 //@   ghostset at "return kv, err": resolved = kv
@@ -559,3 +562,15 @@ package datastore
 //@   safety_off
 //@   calls_havoc
 //@   modifies *
+
+// deleteConflict (C02): the version a conflict deletion is written to is the extension node recorded in
+// extnode - and when this call has to create it, it is the child that newVersion just made (new, hence
+// uncommitted); an already existing (possibly committed) node is never adopted.
+//@ func deleteConflict
+//@   prop C02
+//@   safety_off
+//@   calls_havoc
+//@   modifies *
+//@   ghost made dvid.UUID = ""
+//@   ghostset after "childUUID, err := manager.newVersion(extnode.oldUUID,": made = childUUID
+//@   assert at "extnode.newUUID = childUUID": childUUID == made
